@@ -80,7 +80,12 @@ def vc_match_states(prog, state_kind='edge', family='base'):
     def setup(ctx, it):
         st.clear()
         matcher = K.mk_matcher(mcls, only_edges=(True if family == 'distance' else None))
-        matcher.f['max_lattice_width'] = None
+        # with and without a lattice width (the expansion itself must not depend on it: pruning is a separate step)
+        if ctx.choice(2, 'lattice-width-set') == 0:
+            matcher.f['max_lattice_width'] = None
+        else:
+            matcher.f['max_lattice_width'] = I('max_lattice_width')
+            ctx.assume(I('max_lattice_width') >= 1)
         path_pt = (R('oy'), R('ox'))
         matcher.f['path'] = Obj('Path', pt=path_pt)
         matcher.f['lattice'] = Obj('Lattice')
